@@ -52,6 +52,9 @@ THEOREMS = [
     "Cotengra.C07.never_forbidden",
     "Cotengra.C07.best_meets_targets",
     "Cotengra.C07.search_sound",
+    "Cotengra.C07.session_cache_sound",
+    "Cotengra.C07.session_sound",
+    "Cotengra.C07.orElse_spec",
 ]
 TRUSTED = [
     "Lean 4.33 kernel; axioms within {propext, Classical.choice, Quot.sound}",
@@ -70,7 +73,8 @@ ASSUMPTIONS = [
 RULE = ("random networks over index kinds {bond,hyper,dangling,out1,outk,all,repeated,batch} x random trees x "
         "0-3 already sliced/projected indices x reslice x inplace x target kind(s)/value x allow_outer in "
         "{True,False,'only'} x "
-        "objective x temperature x seed x repeats; non-trivial = >= 3 tensors and a search that returned a "
+        "objective x temperature x seed x repeats x 0-3 further search(**per-call targets) calls on the same "
+        "finder object; non-trivial = >= 3 tensors and a search that returned a "
         "non-empty slicing or raised; distinct by content hash")
 BUDGET = {"quick": 600, "thorough": 3000}
 
@@ -110,7 +114,30 @@ def gen_case(rng, tier):
         free = [ix for ix in inds if ix not in [i for i, _ in pre]]
         if free:
             pre.append([rng.choice(free), None])
-    return {"net": net.json(), "tree": tree, "pre": pre, "targets": tg,
+    # further `search(**overrides)` calls on the *same* finder object (its cache persists; a per-call
+    # target overrides the constructor's for the trials and for the final selection of that call)
+    calls = []
+    if rng.random() < 0.5:
+        for _ in range(rng.choice([1, 1, 2, 3])):
+            over = {}
+            for k in rng.sample(["size", "slices", "overhead"], rng.choice([0, 1, 1, 1, 2])):
+                tighter = rng.random() < 0.6      # mostly tighter than what the finder was built with
+                if k == "size":
+                    hi = max(1, spec["size"] or 1)
+                    if tighter and "size" in tg:
+                        hi = max(1, tg["size"] // rng.choice([2, 2, 3, 4, 8]))
+                    over[k] = rng.randint(1, hi)
+                elif k == "slices":
+                    if tighter and "slices" in tg:
+                        over[k] = tg["slices"] * rng.choice([2, 2, 3, 4, 6])
+                    else:
+                        over[k] = rng.choice([1, 2, 3, 4, 6, 8, 12, 16, 30, 64]) if rng.random() < 0.5 else \
+                            rng.randint(1, max(1, min(total, 64)))
+                else:
+                    q = rng.choice([1, 2, 4, 8])
+                    over[k] = [rng.randint(max(1, q // 2), rng.choice([2, 4, 16]) * q), q]
+            calls.append({"over": over, "repeats": rng.choice([1, 2, 4, 8])})
+    return {"net": net.json(), "tree": tree, "pre": pre, "targets": tg, "calls": calls,
             "reslice": reslice, "inplace": rng.random() < 0.5,
             "sar": rng.random() < (0.12 if tier == "quick" else 0.08),
             "allow_outer": rng.choice([True, True, False, False, "only"]),
@@ -191,38 +218,68 @@ def observe(case):
     obs["cons"] = [{"involved": sorted(us[i] for i in c[0]), "legs": sorted(us[i] for i in c[1]),
                     "size": int(c[2]), "flops": int(c[3])} for c in sf.cost0.contractions]
     obs["size_dict"] = sorted([us[k], int(v)] for k, v in tree.size_dict.items() if k in us)
-    try:
-        ix_sl, cost = sf.search(case["repeats"])
-        obs["status"] = "ok"
-        obs["ix_sl"] = sorted(us[i] for i in ix_sl)
-        obs["cost"] = costs_brief(cost)
-        obs["_ix_sl"] = ix_sl
-    except tuple(ERR) as e:
-        obs["status"] = ERR[type(e)]
-    # oracle answers per trial from the lookup log
-    trials, cur = [], None
-    for k in rec.log:
-        if len(k) == 0:
-            cur = {"keys": []}
-            trials.append(cur)
-        else:
-            cur["keys"].append(sorted(us[i] for i in k))
-    picks = []
-    for t in trials:
-        prev, ps = set(), []
-        for k in t["keys"]:
-            new = set(k) - prev
-            assert len(new) == 1 and prev <= set(k), (prev, k)
-            ps.append(new.pop())
-            prev = set(k)
-        picks.append(ps)
-    obs["picks"] = picks
-    obs["cache"] = {tuple(sorted(us[i] for i in k)): costs_brief(v) for k, v in rec.items()}
+    def picks_of(log):
+        # oracle answers per trial from the lookup log of one call
+        trials, cur = [], None
+        for k in log:
+            if len(k) == 0:
+                cur = {"keys": []}
+                trials.append(cur)
+            else:
+                cur["keys"].append(sorted(us[i] for i in k))
+        picks = []
+        for t in trials:
+            prev, ps = set(), []
+            for k in t["keys"]:
+                new = set(k) - prev
+                assert len(new) == 1 and prev <= set(k), (prev, k)
+                ps.append(new.pop())
+                prev = set(k)
+            picks.append(ps)
+        return picks
+
+    def one_call(repeats, over):
+        o = {"over": over}
+        kw = {}
+        if "size" in over:
+            kw["target_size"] = over["size"]
+        if "slices" in over:
+            kw["target_slices"] = over["slices"]
+        if "overhead" in over:
+            kw["target_overhead"] = over["overhead"][0] / over["overhead"][1]
+        rec.log = []
+        try:
+            ix_sl, cost = sf.search(repeats, **kw)
+            o["status"] = "ok"
+            o["ix_sl"] = sorted(us[i] for i in ix_sl)
+            o["cost"] = costs_brief(cost)
+            o["_ix_sl"] = ix_sl
+        except tuple(ERR) as e:
+            o["status"] = ERR[type(e)]
+        o["picks"] = picks_of(rec.log)
+        o["cache"] = {tuple(sorted(us[i] for i in k)): costs_brief(v) for k, v in rec.items()}
+        return o
+
+    first = one_call(case["repeats"], {})
+    obs.update({k: v for k, v in first.items() if k != "over"})
+    # the later calls on the same object (only while the calls return)
+    obs["calls"] = []
+    for cl in case.get("calls", []):
+        if (obs["calls"][-1] if obs["calls"] else first)["status"] != "ok":
+            break
+        obs["calls"].append(one_call(cl["repeats"], cl["over"]))
     return obs, net, tree, sf
 
 
-def targets_hold(case, m0, flops0, nslices, total_flops, max_size):
-    tg = case["targets"]
+def effective_targets(ctor, over):
+    """`_maybe_default`: the per-call value where one was given, else the constructor's"""
+    tg = dict(ctor)
+    tg.update(over or {})
+    return tg
+
+
+def targets_hold(case, m0, flops0, nslices, total_flops, max_size, tg=None):
+    tg = case["targets"] if tg is None else tg
     bad = []
     if "size" in tg and not max_size <= tg["size"]:
         bad.append("size")
@@ -233,32 +290,49 @@ def targets_hold(case, m0, flops0, nslices, total_flops, max_size):
     return bad
 
 
-def oracle(case, obs, net, tree):
-    """Property oracle on the implementation alone. Returns None or (kind, detail)."""
-    if obs["status"] != "ok":
-        return None        # the property only speaks about searches that return
-    ix_sl = obs["_ix_sl"]
+def oracle_one(case, obs, net, tree, call, tg, tag=""):
+    """Property oracle for one returning `search` call: `tg` are the targets in force for it."""
+    ix_sl = call["_ix_sl"]
     out = set(net.output)
-    sl = set(obs["ix_sl"])
+    sl = set(call["ix_sl"])
     if case["allow_outer"] is False and sl & out:
-        return ("forbidden-chosen", sorted(sl & out))
+        return (tag + "forbidden-chosen", sorted(sl & out))
     if case["allow_outer"] == "only" and sl - out:
-        return ("forbidden-chosen", sorted(sl - out))
+        return (tag + "forbidden-chosen", sorted(sl - out))
     t1 = tree.copy()
     try:
         for ix in ix_sl:
             t1.remove_ind_(ix)
     except Exception as e:      # e.g. an already sliced index was returned
-        return ("returned-unsliceable-index", repr(e))
+        return (tag + "returned-unsliceable-index", repr(e))
     real = {"nslices": int(t1.nslices), "total_flops": int(t1.total_flops()), "size": int(t1.max_size())}
-    c = obs["cost"]
+    c = call["cost"]
     pred = {"nslices": c["nslices"] * obs["m0"], "total_flops": c["total_flops"] * obs["m0"],
             "size": c["size"]}
     if pred != real:
-        return ("prediction", {"predicted": pred, "tree": real})
-    bad = targets_hold(case, obs["m0"], obs["flops0"], real["nslices"], real["total_flops"], real["size"])
+        return (tag + "prediction", {"predicted": pred, "tree": real})
+    bad = targets_hold(case, obs["m0"], obs["flops0"], real["nslices"], real["total_flops"], real["size"], tg)
     if bad:
-        return ("target:" + "+".join(bad), real)
+        return (tag + "target:" + "+".join(bad), {"tree": real, "targets_in_force": tg})
+    return None
+
+
+def oracle(case, obs, net, tree):
+    """Property oracle on the implementation alone. Returns None or (kind, detail). The first call uses the
+    constructor's targets; every later call on the same finder is judged against the targets in force for it
+    (per-call value, else the constructor's)."""
+    if obs["status"] != "ok":
+        return None        # the property only speaks about searches that return
+    r = oracle_one(case, obs, net, tree, obs, case["targets"])
+    if r is not None:
+        return r
+    for k, call in enumerate(obs.get("calls", [])):
+        if call["status"] != "ok":
+            break
+        r = oracle_one(case, obs, net, tree, call, effective_targets(case["targets"], call["over"]),
+                       tag="reused-finder-call-%d:" % (k + 2))
+        if r is not None:
+            return r
     return None
 
 
@@ -490,14 +564,21 @@ def chain_corr(ctx, drv, case, net, tree):
 
 
 def search_corr(ctx, drv, case, obs, net):
-    """(c): whole search replayed by the model on the observed oracle answers."""
-    picks = [list(p) for p in obs["picks"]]
-    if obs["status"] == "RuntimeError" and obs["forbidden"]:
-        # the pick that raised is not looked up in the cache: any forbidden index reproduces it
-        picks[-1].append(obs["forbidden"][0])
+    """(c): the whole history of `search` calls on one finder, replayed by the model (`Slicer.callCache /
+    callResult`, the definitions `session_sound` is about) on the observed oracle answers."""
+    real_calls = [dict(obs, over={})] + list(obs.get("calls", []))
+    mcalls = []
+    for rc in real_calls:
+        picks = [list(p) for p in rc["picks"]]
+        if rc["status"] == "RuntimeError" and obs["forbidden"]:
+            # the pick that raised is not looked up in the cache: any forbidden index reproduces it
+            if not picks:
+                picks = [[]]
+            picks[-1].append(obs["forbidden"][0])
+        mcalls.append({"over": rc["over"], "picks": picks})
     ao = {True: 1, False: 0, "only": 2}[case["allow_outer"]]
-    resp = drv.call("c07.search", size_dict=obs["size_dict"], cons=obs["cons"], output=net.output,
-                    allow_outer=ao, targets=case["targets"], picks=picks)
+    resp = drv.call("c07.session", size_dict=obs["size_dict"], cons=obs["cons"], output=net.output,
+                    allow_outer=ao, targets=case["targets"], calls=mcalls)
     ctx.traces += 1
     if "error" in resp:
         ctx.corr_broken("driver error: " + resp["error"], case)
@@ -505,32 +586,39 @@ def search_corr(ctx, drv, case, obs, net):
     why = None
     if resp["forbidden"] != obs["forbidden"]:
         why = "forbidden set"
-    mcache = {tuple(e["key"]): e["cost"] for e in resp["cache"]}
-    if why is None and mcache != obs["cache"]:
-        why = "cache contents"
-    mstat = resp["best"]["status"]
-    last = resp["trials"][-1]["status"] if resp["trials"] else "ok"
-    model_status = mstat if mstat != "aborted" else last
-    if why is None and model_status != obs["status"]:
-        if obs["status"] == "ok":
-            why = f"outcome {model_status} vs {obs['status']}"
-        else:
-            # the implementation raised: the property only speaks about searches that return, so which
-            # exception (or whether the model would have returned) is recorded, not demanded
-            ctx.count("outcome_differs_when_impl_raises:%s/%s" % (model_status, obs["status"]))
-    if why is None and obs["status"] == "ok":
-        key = tuple(obs["ix_sl"])
-        ent = [e for e in resp["cache"] if tuple(e["key"]) == key]
-        c = obs["cost"]
-        tgs = case["targets"]
-        sz = -1 if c["size"] is None else c["size"]
-        score = [c["total_flops"], c["nslices"], sz] if ("size" in tgs or "slices" in tgs) else \
-            [sz, c["total_flops"], c["nslices"]]
-        if not ent or not ent[0]["valid"] or ent[0]["cost"] != c:
-            why = "returned entry not valid in the model"
-        else:
-            # which valid entry `best` prefers is not part of the property (tie-breaks, ranking): counted only
-            ctx.count("best_is_model_min" if score == resp["min_score"] else "best_differs_from_model_min")
+    for k, (rc, mc) in enumerate(zip(real_calls, resp["calls"])):
+        if why is not None:
+            break
+        tgs = effective_targets(case["targets"], rc["over"])
+        mcache = {tuple(e["key"]): e["cost"] for e in mc["cache"]}
+        if mcache != rc["cache"]:
+            why = "cache contents after call %d" % (k + 1)
+            break
+        mstat = mc["best"]["status"]
+        last = mc["trials"][-1]["status"] if mc["trials"] else "ok"
+        model_status = mstat if mstat != "aborted" else last
+        if model_status != rc["status"]:
+            if rc["status"] == "ok":
+                why = f"outcome of call {k + 1}: {model_status} vs ok"
+            else:
+                # the implementation raised: the property only speaks about searches that return, so which
+                # exception (or whether the model would have returned) is recorded, not demanded
+                ctx.count("outcome_differs_when_impl_raises:%s/%s" % (model_status, rc["status"]))
+            break
+        if rc["status"] == "ok":
+            key = tuple(rc["ix_sl"])
+            ent = [e for e in mc["cache"] if tuple(e["key"]) == key]
+            c = rc["cost"]
+            sz = -1 if c["size"] is None else c["size"]
+            score = [c["total_flops"], c["nslices"], sz] if ("size" in tgs or "slices" in tgs) else \
+                [sz, c["total_flops"], c["nslices"]]
+            if not ent or not ent[0]["valid"] or ent[0]["cost"] != c:
+                why = "returned entry of call %d not valid in the model" % (k + 1)
+            else:
+                # which valid entry `best` prefers is not part of the property (tie-breaks, ranking): counted only
+                ctx.count("best_is_model_min" if score == mc["min_score"] else "best_differs_from_model_min")
+            if k >= 1:
+                ctx.count("reused_finder_call_compared")
     if why:
         ctx.corr_broken("search: model and implementation disagree on " + why, case)
         return False
@@ -571,6 +659,14 @@ def check_case(ctx, drv, case):
     ctx.count("trials", len(obs["picks"]))
     ctx.count("picks", sum(len(p) for p in obs["picks"]))
     ctx.count("cache_entries", len(obs["cache"]))
+    for k, cl in enumerate(obs.get("calls", [])):
+        ctx.count("reused_finder_call:" + cl["status"])
+        if cl["status"] == "ok" and cl["over"]:
+            tight = targets_hold(case, obs["m0"], obs["flops0"], obs["cost"]["nslices"] * obs["m0"],
+                                 obs["cost"]["total_flops"] * obs["m0"], obs["cost"]["size"] or 0,
+                                 effective_targets(tg, cl["over"])) if obs["status"] == "ok" else []
+            # the first call's answer would NOT satisfy this call's targets: the override matters
+            ctx.count("reused_finder_call:override-" + ("binding" if tight else "slack"))
     for f in net.features():
         ctx.count("feature:" + f)
     if obs["status"] == "ok":
@@ -583,6 +679,8 @@ def check_case(ctx, drv, case):
         ctx.violation({"site": "SliceFinder.search/tree.slice", "kind": fail[0].split(":")[0]},
                       {"case": case, "observed": {k: v for k, v in obs.items()
                                                   if k in ("status", "ix_sl", "cost", "m0", "flops0")},
+                       "later_calls": [{k: v for k, v in cl.items() if k in ("over", "status", "ix_sl", "cost")}
+                                       for cl in obs.get("calls", [])],
                        "failure": fail},
                       f"slice finder: {fail[0]}: {fail[1]}")
         return
